@@ -10,7 +10,7 @@ CHECKS = {
  "C07": dict(
     level=TV, design="2/C07", engine="tvsmt",
     technique="SMT translation validation: real simplify() run on generated sums, input/output encoded as polynomials over symbolic tensor entries in a finite orbital model, z3 decides value equality for all entries and target assignments; sat models replayed exactly",
-    text="Each run of the real simplify() on a generated sum is validated by z3: value(out)=value(in) for every tensor valuation with the declared symmetries and every target assignment of a 3o3v/2o2v (spin: 2o2v x ab) model; term count, targets, assumptions and merging of alpha-equivalent pairs are direct checks on the concrete output.",
+    text="Each run of the real simplify() on a generated sum (scalar sums also with a term that carries no index) is validated by z3: value(out)=value(in) for every tensor valuation with the declared symmetries and every target assignment of a 3o3v/2o2v (spin: 2o2v x ab) model; term count, targets, assumptions and merging of alpha-equivalent pairs are direct checks on the concrete output.",
     note="Bounded: expression shapes come from a seeded generator (plain, Kronecker deltas on contracted indices, general indices, exponents, repeated targets, spin, symbolic denominators, identical tensors repeated in cycles / rings; <=9 terms, <=3 tensors/term, <=5 contracted, <=4 targets), orbital model <=3o3v. Trusted: sympy, z3, the IR reader and the harness' symmetry canonicalisation; sat models are replayed on the sympy trees before reporting."),
  "C08": dict(
     level=TV, design="2/C08", engine="tvsmt",
@@ -20,17 +20,17 @@ CHECKS = {
  "C09": dict(
     level=TV, design="2/C09", engine="tvsmt",
     technique="SMT translation validation of evaluate_deltas in a typed orbital model (index range = its space and spin): z3 decides value equality for all tensor entries and target assignments, which implies no information-losing replacement",
-    text="Each run of the real evaluate_deltas on generated delta chains/stars (occ/virt/general, spin labelled or not, explicit or Einstein targets) is validated by z3 in typed models up to 3o2v / 2o1v x spin.",
+    text="Each run of the real evaluate_deltas on generated delta chains/stars (occ/virt/general, spin labelled or not, explicit or Einstein targets; also products with a factor that is not expanded) is validated by z3 in typed models up to 3o2v / 2o1v x spin.",
     note="Bounded generator (1-3 tensors, 1-4 deltas, <=4 contracted); the property's precondition (each contracted index on a non-delta object) is enforced by the generator; sat models replayed exactly."),
  "C01": dict(
     level=TV, design="2/C01", engine="detref",
     technique="z3 equivalence (QF_LIA+Bool) of the delta polynomial returned by the real wicks() with a bit-string vacuum-expectation circuit whose orbital positions are symbolic; plus z3 (QF_NRA) validation of wicks() on tensor x operator products against concrete determinant sums with symbolic tensor entries",
-    text="For every enumerated operator string (all of length 2, sampled/exhaustive length 4, sampled 3/5/6/8, 0-2 normal-ordered groups; balanced strings of number-conserving blocks with up to six general indices inside normal-ordered groups) z3 shows that wicks' result equals the determinant-space vev for every assignment of orbitals in a 2o2v (thorough 3o3v) model; contracted products incl. delta evaluation and block rules are validated against sum_assign prod T * vev for all tensor values.",
+    text="For every enumerated operator string (all of length 2, sampled/exhaustive length 4, sampled 3/5/6/8, 0-2 normal-ordered groups; balanced strings of number-conserving blocks with up to six general indices inside normal-ordered groups) z3 shows that wicks' result equals the determinant-space vev for every assignment of orbitals in a 2o2v (thorough 3o3v) model; contracted products incl. delta evaluation and block rules (also with an operator-free term next to the operator product) are validated against sum_assign prod T * vev for all tensor values.",
     note="Bounded: string shapes enumerated (not solver variables), model <=3o3v, spin-labelled operators not explored (documented refusal). Trusted: sympy's construction of NO objects, z3, vlib/detref.py (independent of adcgen's Wick code). sat models are replayed on concrete bit strings."),
  "C02": dict(
     level=TV, design="2/C02", engine="detref",
     technique="z3 polynomial-identity check of each derived ground-state expression (energy, MP amplitude, RE residual, 1-/2-particle expectation value) against explicit RSPT on occupation bit strings with symbolic integrals, orbital energies and lower-order amplitudes; z3 identity of the norm-factor order expansion with the series of 1/(1+x) obtained from c(1+x)=1; CrossHair on gen_term_orders",
-    text="Each expression returned by the real GroundState API is shown equal, for all integrals / orbital energies / lower-order amplitudes and all index assignments of a 2o2v (thorough: up to 3o3v) model, to the quantity computed by explicit determinant-space RSPT; orders <=3 in 2o2v quick, third-order singles in 3o3v and third-order doubles in 4o4v on a bounded number of target assignments (triples / quadruples couplings); up to 3o3v, energy 4 and expectation value 4 thorough; mp and re; with/without first-order singles. The order expansion returned by expand_norm_factor is shown by z3 to be the lambda^n coefficient of 1/(1+x) for all overlap values (orders <=6/8/9 for min_order 1/2/3; thorough 8/11/12).",
+    text="Each expression returned by the real GroundState API is shown equal, for all integrals / orbital energies / lower-order amplitudes and all index assignments of a 2o2v (thorough: up to 3o3v) model, to the quantity computed by explicit determinant-space RSPT; orders <=3 in 2o2v quick, third-order singles in 3o3v and third-order doubles in 4o4v on a bounded number of target assignments (triples / quadruples couplings); up to 3o3v, energy 4 and expectation value 4 thorough; mp and re; with/without first-order singles; a second amplitude request for the same order and class on one object with shifted / swapped target names. The order expansion returned by expand_norm_factor is shown by z3 to be the lambda^n coefficient of 1/(1+x) for all overlap values (orders <=6/8/9 for min_order 1/2/3; thorough 8/11/12).",
     note="Induction over the order: lower-order wavefunctions are free amplitude unknowns in adcgen's documented convention. Canonical orbitals for MP amplitudes; inverse orbital-energy forms are shared free unknowns (sound). Quadruples (need 4o4v) outside."),
  "C04": dict(
     level=TV, design="2/C04", engine="tvsmt",
@@ -40,12 +40,12 @@ CHECKS = {
  "C03": dict(
     level=TV, design="2/C03", engine="detref",
     technique="z3 polynomial-identity check of each derived secular-matrix block / precursor block / MVP against the order-n coefficient of <I|H-E0|J> between intermediate states built explicitly on occupation bit strings (excitation operators on the normalised perturbed ground state, projection, S^-1/2 from X X S = 1); transpose relation between two real outputs; CrossHair on block_order",
-    text="For all five variants, the blocks and orders of ADC(3) (quick: orders <=2, blocks with <=6 indices), subtract_gs on/off, every matrix element returned by the real code is shown equal to the explicit construction for all integrals, Fock matrices, amplitude values and bra/ket index assignments of the model; MVPs with the documented hidden-factor normalisation; SecularMatrix.mvp vs the sum of its blocks over the harness' own ADC(n) truncation table.",
+    text="For all five variants, the blocks and orders of ADC(3) (quick: orders <=2, blocks with <=6 indices), subtract_gs on (all) and off (lowest diagonal block, and forwarded through mvp), every matrix element returned by the real code is shown equal to the explicit construction for all integrals, Fock matrices, amplitude values and bra/ket index assignments of the model; MVPs with the documented hidden-factor normalisation; SecularMatrix.mvp vs the sum of its blocks over the harness' own ADC(n) truncation table.",
     note="Ground-state corrections are free amplitude unknowns in adcgen's convention (C02/C12 tie them to RSPT). Models: n_o,n_v = max(2,#h/#p); thorough adds 3o3v for small blocks. mp partitioning only (as the property states)."),
  "C05": dict(
     level=TV, design="2/C05", engine="detref",
     technique="z3 polynomial-identity check of each derived ISR expectation-value block contribution and transition moment against the order-n coefficient of the explicit matrix element (operator minus ground-state expectation value) between intermediate states / the normalised perturbed ground state built on occupation bit strings, contracted with free amplitude vectors using the documented normalisation",
-    text="For pp/ip/ea (thorough: dip/dea too) and the mixed ip/pp, pp/ea combinations, blocks of the two lowest classes, 1- and 2-particle operators, explicit and default operator strings, orders <=2, subtract_gs on/off, the scalar returned by the real code equals the explicit matrix-element contraction for all integrals, operator matrices, amplitude vectors and ground-state amplitudes of the model; expectation_value / trans_moment (which only sum contributions) vs the sum over the harness' own truncation table.",
+    text="For pp/ip/ea (thorough: dip/dea too) and the mixed ip/pp, pp/ea combinations, blocks of the two lowest classes, 1- and 2-particle operators, explicit and default operator strings, orders <=2 (and the third-order lowest diagonal block with first-order singles), subtract_gs on/off, the scalar returned by the real code equals the explicit matrix-element contraction for all integrals, operator matrices, amplitude vectors and ground-state amplitudes of the model; expectation_value / trans_moment (which only sum contributions) vs the sum over the harness' own truncation table.",
     note="Same parametrisation and models as C03. Operator strings with unequal numbers of creators/annihilators are covered for transition moments (default string per variant + one non-default)."),
  "C20": dict(
     level=TV, design="2/C20", engine="tvsmt",
@@ -65,7 +65,7 @@ CHECKS = {
  "C10": dict(
     level=TV, design="2/C10", engine="tvsmt",
     technique="SMT translation validation: every (permutation product, +-1) reported by the real Term.symmetry/Obj.symmetry is checked by z3 against the term with the composed permutation applied independently, and every reported transposition must preserve the index range (space and spin); the parts returned by exploit_perm_sym / sort.by_* / filter_tensor are re-assembled and compared with the input by z3 (symbolic tensor entries, all target assignments); filing keys recomputed directly",
-    text="Generated terms (1-3 tensors, denominators, exponents, spin) in the three index modes and per object; expressions symmetrised over random subgroups (generic terms and twin terms: two copies of one tensor with the targets distributed) for exploit_perm_sym with all target-string / bra-ket / result-tensor options; five sorters and filter_tensor.",
+    text="Generated terms (1-3 tensors, denominators, exponents, spin) in the three index modes and per object; expressions symmetrised over random subgroups (generic terms and twin terms: two copies of one tensor with the targets distributed) for exploit_perm_sym with all target-string / bra-ket / result-tensor options; five sorters and filter_tensor (all strictness levels, also on expressions over few tensor names with the request drawn from what one term holds).",
     note="Bounded generator and models (<=3o3v). Permutations are applied by sympy's simultaneous substitution of the composed map, not by adcgen's permute. Cases in which Term.symmetry does not finish within the per-case limit give no verdict (counted in evidence)."),
  "C14": dict(
     level=TV, design="2/C14", engine="tvsmt",
@@ -80,7 +80,7 @@ CHECKS = {
  "C16": dict(
     level=TV, design="2/C16", engine="tvsmt",
     technique="the scheme returned by the real optimize_contractions / unoptimized_contraction is interpreted step by step by the harness and its result compared with the term's value by z3 (symbolic tensor entries, all target assignments); use-once, sum-once, limits, reported scaling and the scaling bound are direct checks; CrossHair on _split_contracted_and_target and _group_objects with symbolic index layouts",
-    text="Generated terms with 2-4 tensors (deltas, symbols, exponents, traces, outer products, hyper-contractions), random requested target order, seven limit settings.",
+    text="Generated terms with 2-4 tensors (deltas, symbols, exponents, traces, outer products, hyper-contractions), random requested target order, seven limit settings; hyper-contractions with two hyper indices under limits of four / five simultaneously contracted objects.",
     note="Models <=2o2v. An intermediate that already carries exactly the indices of the final result is exempt from max_itmd_dim (as the code documents). CrossHair: 3 objects x 2 indices over 3 ids (thorough 4)."),
  "C17": dict(
     level=TV, design="2/C17", engine="tvsmt",
